@@ -255,7 +255,7 @@ func ruleP2(c *Ctx) *RuleResult {
 // P3
 
 func ruleP3(c *Ctx) *RuleResult {
-	r := &RuleResult{Floor: 6, FloorWhat: "window obligations"}
+	r := &RuleResult{Floor: 7, FloorWhat: "window obligations"}
 	segF := c.Field("", "muxerStream", "segments")
 	partsF := c.Field("", "muxerSegmentFMP4", "parts")
 	partPathF := c.Field("", "muxerPart", "path")
@@ -335,6 +335,23 @@ func ruleP3(c *Ctx) *RuleResult {
 		return r
 	}
 	r.ok("rotateSegments|drop-guard", c.Pos(guard.Pos()), FuncName(fn), "the drop is control dependent on len(s.segments) > s.segmentCount", "guard found")
+	// ... and on nothing else: once the window is over its bound, every path drops the head before it returns
+	{
+		th := guard.Block().Succs[0]
+		var bad []string
+		{
+			bad = pathAvoidingFromBlock(c, fn, th, func(x ssa.Instruction) bool { return x == sh.st }, func(x ssa.Instruction) bool {
+				_, isRet := x.(*ssa.Return)
+				return isRet
+			})
+		}
+		if bad == nil {
+			r.ok("rotateSegments|drop-whenever", c.Pos(guard.Pos()), FuncName(fn), "whenever len(s.segments) > s.segmentCount the head is dropped before the function returns", "every path from the guard's true branch to a return passes the shrink")
+		} else {
+			r.fail("rotateSegments|drop-whenever", c.Pos(guard.Pos()), FuncName(fn), "whenever len(s.segments) > s.segmentCount the head is dropped before the function returns",
+				"a path from the true branch of the guard returns without the shrink (a further condition): one rotation drops at most one segment, so an excess that is once skipped never goes away and the window, the path table and the files exceed SegmentCount for good", bad...)
+		}
+	}
 
 	isDropped := func(v ssa.Value) bool { return sameObject(v, dropped) }
 	thenBlock := guard.Block().Succs[0]
@@ -421,7 +438,36 @@ func ruleP3(c *Ctx) *RuleResult {
 				}
 			}
 		})
-		if culprit != "" {
+		// the loop runs whenever the head is an fMP4 segment: the only way round the load of head.parts is the
+		// failed branch of a type test of the head
+		skipWhy := ""
+		if culprit == "" {
+			cut := map[edge]bool{}
+			for _, ci := range ifsOn(fn, func(v ssa.Value) bool {
+				ex, ok := v.(*ssa.Extract)
+				if !ok || ex.Index != 1 {
+					return false
+				}
+				ta, ok := ex.Tuple.(*ssa.TypeAssert)
+				return ok && ta.CommaOk && isDropped(ta.X)
+			}) {
+				b := ci.If.Block()
+				idx := 1
+				if !ci.Pol {
+					idx = 0
+				}
+				cut[edge{b.Index, b.Succs[idx].Index}] = true
+			}
+			if partsLoad.Block() != thenBlock {
+				seen := reachableBlocks(fn, thenBlock.Index, cut, map[int]bool{partsLoad.Block().Index: true})
+				if seen[sh.st.Block().Index] {
+					skipWhy = "the loop over the head's parts can be skipped by a condition other than the type test of the head (Low-Latency segments are fMP4 segments too): their part URLs, and the part buffers the handlers capture, are never released"
+				}
+			}
+		}
+		if skipWhy != "" {
+			r.fail("rotateSegments|drop-parts", c.Pos(partsLoad.Pos()), FuncName(fn), "every part path of the dropped segment is unregistered whenever the head is an fMP4 segment", skipWhy)
+		} else if culprit != "" {
 			r.fail("rotateSegments|drop-parts", c.Pos(partsLoad.Pos()), FuncName(fn), "the part list of the dropped segment is intact when its part paths are unregistered", culprit+" before the loop reads it: the loop may iterate an emptied list and part URLs keep resolving")
 		} else {
 			r.ok("rotateSegments|drop-parts", c.Pos(partUnreg.Pos()), FuncName(fn), "every part path of the dropped segment is unregistered, from an unmodified part list", "range over head.parts → unregisterPath(part.path)")
@@ -983,6 +1029,33 @@ func ruleP6(c *Ctx) *RuleResult {
 			} else {
 				r.fail("rotateSegments|taken-segment-settled", c.Pos(nilStore.Pos()), FuncName(fn), "the segment taken out of the open slot is appended to the window or closed on every path to a return",
 					"a path returns with the segment neither listed nor closed: its file is never removed", bad...)
+			}
+			// (f) once listed, the segment is not closed by the same rotation (only the dropped head is)
+			var listed ssa.Instruction
+			allInstrs(fn, func(in ssa.Instruction) {
+				if st, ok := in.(*ssa.Store); ok && !inLoop(in) {
+					if f, _ := fieldOfAddr(st.Addr); f == segF {
+						if call, ok := st.Val.(*ssa.Call); ok {
+							if b, ok := call.Call.Value.(*ssa.Builtin); ok && b.Name() == "append" && instrReaches(nilStore, in) {
+								listed = in
+							}
+						}
+					}
+				}
+			})
+			if listed != nil {
+				var culprit ssa.Instruction
+				allInstrs(fn, func(in ssa.Instruction) {
+					if methodCallOn(in, "close", isTaken) && instrReaches(listed, in) {
+						culprit = in
+					}
+				})
+				if culprit == nil {
+					r.ok("rotateSegments|listed-not-closed", c.Pos(listed.Pos()), FuncName(fn), "after the finished segment was appended to the window no path of the rotation closes it", "no close() on it is reachable from the append")
+				} else {
+					r.fail("rotateSegments|listed-not-closed", c.Pos(culprit.Pos()), FuncName(fn), "after the finished segment was appended to the window no path of the rotation closes it",
+						"close() on the segment that was just listed and registered: with a Directory its file is deleted while every later playlist still lists it, the segment (and in Low-Latency its parts) answer 500")
+				}
 			}
 		}
 	}
